@@ -52,6 +52,17 @@ class Based:
         return "B%+d*2^%d+%r" % (self.dbase, self.k, self.off)
 
 
+class Residue:
+    """an opaque integer/pointer X of which only X mod m == r is known"""
+    __slots__ = ("m", "r")
+
+    def __init__(self, m, r):
+        self.m, self.r = m, r
+
+    def __repr__(self):
+        return "X(≡%d mod %d)" % (self.r, self.m)
+
+
 def trange(w, signed):
     return (-(1 << (w - 1)), (1 << (w - 1)) - 1) if signed else (0, (1 << w) - 1)
 
@@ -221,6 +232,11 @@ class Interp:
                 return AV(int(n["cv"]), None, tw, ts)
             if n["dk"] in ("local", "parm"):
                 if n["d"] not in env or env[n["d"]] is None:
+                    # single-definition local evaluated on demand (used when an expression is evaluated out of its statement context)
+                    defs = [rhs for a, rhs, op in f.var_defs(n["d"]) if rhs is not None] if getattr(self, "lazy_locals", False) else []
+                    if len(defs) == 1 and depth < self.max_depth:
+                        env[n["d"]] = self.eval(f, defs[0], env, depth + 1)
+                        return env[n["d"]]
                     raise Unsupported("read of uninitialised/unknown variable %s at %s" % (n["n"], f.loc(i)))
                 return env[n["d"]]
             if n["dk"] == "global":
@@ -232,7 +248,7 @@ class Interp:
             if ck in ("LValueToRValue", "NoOp", "FunctionToPointerDecay", "ArrayToPointerDecay", "BitCast", "ToVoid"):
                 return v
             if ck in ("IntegralCast", "IntegralToBoolean", "PointerToIntegral", "IntegralToPointer", "PointerToBoolean"):
-                if isinstance(v, Based):
+                if isinstance(v, (Based, Residue)):
                     return v
                 if ck in ("IntegralToBoolean", "PointerToBoolean"):
                     if v.lo > 0 or v.hi < 0:
@@ -409,6 +425,15 @@ class Interp:
                 raise Unsupported("memory read %s at %s" % (f.text(i), f.loc(i)))
 
     def binop(self, op, a, b, tw, ts, f=None, i=None):
+        if isinstance(a, Residue):
+            c = b.const() if isinstance(b, AV) else None
+            if op == "%" and c is not None and c > 0 and a.m % c == 0:
+                return AV(a.r % c, None, tw, ts)
+            if op == "&" and c is not None and c & (c + 1) == 0 and a.m % (c + 1) == 0:
+                return AV(a.r & c, None, tw, ts)
+            if op == "+" and isinstance(b, AV) and b.const() is not None:
+                return Residue(a.m, (a.r + b.const()) % a.m)
+            raise Unsupported("operation %s on a residue value" % op)
         if isinstance(a, Based) or isinstance(b, Based):
             return self.based_op(op, a, b, tw, ts)
         if a is None or b is None or isinstance(a, tuple) or isinstance(b, tuple):
